@@ -25,7 +25,8 @@ static const uint8_t types[] = TYPES;
 static uint8_t  m_nvm[8 * 3];            /* model: NVM contents                   */
 static uint8_t  m_known[3];              /* model knows the NVM image of group g  */
 static uint32_t gsize[3];
-static uint8_t  gen[3];
+static uint8_t  gen[3];                  /* enabled for storing on command (E)        */
+static uint8_t  gauto[3];                /* enabled for autonomous storing (A): irrelevant for store requests */
 
 static void setup_groups(void)
 {
@@ -33,7 +34,7 @@ static void setup_groups(void)
     for (g = 0; g < G; g++) {
         CO_PARA *p = od_parap[g];
         p->Offset = 8 * g; p->Size = gsize[g]; p->Start = &od_para_ram[g][0]; p->Default = &od_para_def[g][0];
-        p->Type = (types[g] == 1) ? CO_RESET_NODE : CO_RESET_COM; p->Ident = 0; p->Value = gen[g] ? CO_PARA___E : CO_PARA____;
+        p->Type = (types[g] == 1) ? CO_RESET_NODE : CO_RESET_COM; p->Ident = 0; p->Value = (uint32_t)((gen[g] ? CO_PARA___E : CO_PARA____) | (gauto[g] ? CO_PARA__A_ : CO_PARA____));
     }
 }
 static void sdo_wr(uint16_t idx, uint8_t sub, uint32_t v)
@@ -63,7 +64,7 @@ void harness(void)
 
     env_reset();
     od_defaults();
-    for (g = 0; g < G; g++) { gsize[g] = ND_RANGE(1, 8); gen[g] = ND_U8() & 1; }
+    for (g = 0; g < G; g++) { gsize[g] = ND_RANGE(1, 8); gen[g] = ND_U8() & 1; gauto[g] = ND_U8() & 1; }
     ND_BUF(env_nvm, 8 * G);
     for (i = 0; i < 8 * G; i++) { m_nvm[i] = env_nvm[i]; }
     for (g = 0; g < G; g++) { m_known[g] = 1; ND_BUF(&od_para_ram[g][0], 8); }
@@ -137,7 +138,17 @@ void harness(void)
             }
             e = CONodeGetErr(&node);
             hit = (fault_k >= calls0) && (fault_k < env_nvm_call_n);
-            if (hit) { CHECK(e != CO_ERR_NONE, "short NVM read surfaces as node error"); faulted = 1; }
+            if (hit) {
+                /* which read came back short: groups are read type by type (node groups, then communication groups), in sub-index order */
+                uint32_t idx = 0, pass, fpass = 0, fg = G;
+                CHECK(e != CO_ERR_NONE, "short NVM read surfaces as node error"); faulted = 1;
+                for (pass = ((o == 'C') ? 2 : 1); pass <= 2; pass++) {
+                    for (g = 0; g < G; g++) { if (types[g] == pass) { if (calls0 + idx == fault_k) { fpass = pass; fg = g; } idx++; } }
+                }
+                /* the short read of one group does not keep the other groups of that reload from being read */
+                for (g = 0; g < G; g++) { if ((types[g] == fpass) && (g != fg)) { check_loaded(g); } }
+                COVER(fg < G && G > 1, "short read of one of several groups");
+            }
             else {
                 CHECK(e == CO_ERR_NONE, "reload without fault reports no error");
                 for (g = 0; g < G; g++) {
